@@ -150,7 +150,7 @@ Section Projection.
       assert (step_state s (Msg m) = s') as Hst by (unfold step_state, exec_step; rewrite E; reflexivity).
       assert (snd (exec_step s (Msg m)) = rw) as Hrw by (unfold exec_step; rewrite E; reflexivity).
       rewrite Hst.
-      destruct m as [who lpt start ed rules|who pid' d amt|who pid' d amt|who pid'|who pid' add rpb|who pid']; simpl in E.
+      destruct m as [who lpt start ed rules|who pid' d amt|who pid' d amt|who pid'|who pid' add rpb|who pid'|who cf tr]; simpl in E.
       + destruct (create_Done _ _ _ _ _ _ _ _ E) as (b1 & b2 & iv & _ & _ & _ & _ & _ & _ & _ & _ & ->).
         apply Hsame; [simpl; rewrite get_set_other by lia; exact Hg|left; reflexivity].
       + destruct (stake_Done _ _ _ _ _ _ _ E) as (p0 & b1 & p1 & b2 & rw0 & db & b3 & Hs). cbv zeta in Hs.
@@ -222,6 +222,7 @@ Section Projection.
           -- simpl p_rules. apply Forall2_map_same_rps; [intros r; split; reflexivity|]. exact (rps_mono_update _ _ _ _ _ _ _ PI Hu).
           -- cbn [act_of]. destruct (update_pool_true _ _ _ _ _ _ _ Hu) as (_ & _ & _ & -> & _). reflexivity.
         * apply Hsame; [rewrite (refund_get_other _ _ _ _ _ _ Hne Hr); exact Hg|left; reflexivity].
+      + destruct (update_params_Done _ _ _ _ _ _ E) as (_ & _ & _ & _ & ->). apply Hsame; [exact Hg|left; reflexivity].
     - unfold step_state, exec_step. cbn [fst snd]. simpl pools. unfold end_block.
       destruct (in_dec Z.eq_dec pid (due s)) as [Hin|Hni].
       + destruct (in_split _ _ Hin) as (l1 & l2 & Hl). pose proof (NoDup_due _ (i_qnd _ I)) as Hnd. rewrite Hl in Hnd.
